@@ -187,8 +187,8 @@ def native_replay(scratch, src):
         class _P:
             stdout = out
         p = _P
-        if "test result: FAILED" in p.stdout:
-            fails += 1
+        if "test result: FAILED" in p.stdout or ("error: test failed" in p.stdout and "panicked at" in p.stdout):
+            fails += 1      # a failed assertion, or the test process aborted on a panic (e.g. a panicking worker thread taking the process down)
         elif "test result: ok" not in p.stdout:
             log("  replay build problem: " + p.stdout[-1500:])
             return None
